@@ -6,7 +6,7 @@ import KalignModel.Model.Cmp
   1. `kalign_essential_input_check(msa, 0)` — `rank := input position`, zero-length sequences are
      moved behind `numseq` (dropped);
   2. `dealign_msa` if needed (residues are unchanged);
-  3. `msa_sort_len_name` — `qsort` by length descending, then `strncmp(name, 256)` ascending; the
+  3. `msa_sort_len_name` — `qsort` by length descending, then `strcmp(name)` ascending; the
      comparator never returns 0;
   4. everything up to `finalise_alignment` works on that list and never reads `rank`
      (`Gen.rankUses`);
@@ -71,7 +71,7 @@ def essentialInputCheck (inp : List InSeq) : Option (List RSeq) :=
 /-- `sort_by_len_name` (msa_sort.c:62-80) -/
 def cmpLenName (la : Nat) (na : Name) (lb : Nat) (nb : Name) : Int :=
   if la > lb then -1
-  else if la = lb then (if strncmp msaNameLen na nb < 0 then -1 else 1)
+  else if la = lb then (if strcmp na nb < 0 then -1 else 1)
   else 1
 
 /-- `msa_sort_len_name`, generic in the payload -/
